@@ -378,32 +378,37 @@ def resolvePathInChroot (root path : Str) : Option Str :=
       let r := if r = dot then slashStr else r
       some (if r.head? ≠ some 47 then 47 :: r else r)
 
+/-- `goInChroot(root, body)`: the body runs on a thread whose root was switched to `root`
+    (unshare + MakeRSlave + SwitchRoot; a failure is reported before the body starts) -/
+def jailedP {α : Type} (root : Str) (body : Prog α) (onErr : α) : Prog α :=
+  .call (.chroot root) (fun c => if isErr c then .ret onErr else body)
+
+/-- the part of chrootarchive's `untarHandler` that runs before the jail: create a missing
+    destination when it is the root itself -/
+def preJailDestP (dest root : Str) (o : Opts) : Prog (Except Out Str) :=
+  if dest = root then
+    .call (.stat (clean dest)) (fun s =>
+      if isENOENT s then do
+        let m ← mkdirAllAndChownP (clean dest) 0o755 (rootPair o)
+        if isErr m then pure (Except.error Out.err) else pure (Except.ok (clean dest))
+      else .ret (Except.ok (clean dest)))
+  else .ret (Except.ok dest)
+
+/-- `invokeUnpack` + `doUnpack` -/
+def jailedUnpackP (root d : Str) (o : Opts) (es : List Entry) : Prog Out :=
+  match resolvePathInChroot root d with
+  | none => .ret .err
+  | some relDest => jailedP root (unpackP relDest o es) .err
+
 /-- `chrootarchive.Untar` / `UntarWithRoot` / `UntarUncompressed` -/
-def chrootUntarP (dest root : Str) (o : Opts) (es : List Entry) : Prog Out := do
-  let dest1 ← (if dest = root then do
-      let d := clean dest
-      let s ← sys (.stat d)
-      if isENOENT s then
-        let m ← mkdirAllAndChownP d 0o755 (rootPair o)
-        if isErr m then pure (Except.error Out.err) else pure (Except.ok d)
-      else pure (Except.ok d)
-    else pure (Except.ok dest))
-  match dest1 with
-  | .error out => return out
-  | .ok d =>
-    match resolvePathInChroot root d with
-    | none => return .err
-    | some relDest =>
-      let c ← sys (.chroot root)
-      if isErr c then return .err
-      unpackP relDest o es
+def chrootUntarP (dest root : Str) (o : Opts) (es : List Entry) : Prog Out :=
+  (preJailDestP dest root o).bind (fun d1 =>
+    match d1 with
+    | .error out => .ret out
+    | .ok d => jailedUnpackP root d o es)
 
 /-- `chrootarchive.ApplyLayer` / `ApplyUncompressedLayer` -/
-def chrootApplyLayerP (dest : Str) (o : Opts) (es : List Entry) : Prog (Out × Nat) := do
-  let d := clean dest
-  let c ← sys (.chroot d)
-  if isErr c then return (.err, 0)
-  let _ ← sys (.setUmask 0)
-  unpackLayerP slashStr o es
+def chrootApplyLayerP (dest : Str) (o : Opts) (es : List Entry) : Prog (Out × Nat) :=
+  jailedP (clean dest) (.call (.setUmask 0) (fun _ => unpackLayerP slashStr o es)) (.err, 0)
 
 end GA
